@@ -4,14 +4,16 @@
 #include "../fw/core.h"
 #include "../fw/ledger.h"
 #include "../fw/sched.h"
+#include <stdexcept>
 #include <eventpp/callbacklist.h>
 #include <eventpp/eventdispatcher.h>
 
 using namespace verif;
 
-enum Kind { APPEND, PREPEND, INSERT_H1, REMOVE_H1, REMOVE_H2, OWNS_H1, EMPTY, INVOKE, FOREACH, APPEND_E2, DISPATCH_E2, HASANY_E2, NKINDS };
+enum Kind { APPEND, PREPEND, INSERT_H1, REMOVE_H1, REMOVE_H2, OWNS_H1, EMPTY, INVOKE, FOREACH, APPEND_E2, DISPATCH_E2, HASANY_E2, NKINDS,
+	APPEND_FAIL = NKINDS };    // append of a callback whose copy constructor throws inside the library: the call must fail and change nothing (only in the faulting-append family)
 static const char * kindName(int k) {
-	static const char * n[] = {"append", "prepend", "insert(before h1)", "remove(h1)", "remove(h2)", "ownsHandle(h1)", "empty", "invoke", "forEach", "appendListener(e2)", "dispatch(e2)", "hasAnyListener(e2)"};
+	static const char * n[] = {"append", "prepend", "insert(before h1)", "remove(h1)", "remove(h2)", "ownsHandle(h1)", "empty", "invoke", "forEach", "appendListener(e2)", "dispatch(e2)", "hasAnyListener(e2)", "append(callback whose copy throws)"};
 	return n[k];
 }
 static bool isTraversal(int k) { return k == INVOKE || k == FOREACH || k == DISPATCH_E2; }
@@ -54,6 +56,7 @@ struct Model {
 		case OWNS_H1: return alive(0, 1) ? 1 : 0;
 		case EMPTY: return anyAlive(0) ? 0 : 1;
 		case HASANY_E2: return anyAlive(1) ? 1 : 0;
+		case APPEND_FAIL: return -2;      // the exception reached the caller; no effect
 		}
 		return -1;
 	}
@@ -74,6 +77,7 @@ struct ListT {
 	static const char * name() { return "CallbackList"; }
 	void share() { sched().addSharedRange(&list, sizeof list); }
 	template <typename F> Handle append(int, F f) { return list.append(f); }
+	Handle appendFn(const std::function<void(int)> & f) { return list.append(f); }
 	template <typename F> Handle prepend(F f) { return list.prepend(f); }
 	template <typename F> Handle insert(F f, const Handle & h) { return list.insert(f, h); }
 	bool remove(const Handle & h) { return list.remove(h); }
@@ -101,6 +105,7 @@ struct DispT {
 	static const char * name() { return "EventDispatcher"; }
 	void share() { sched().addSharedRange(&d, sizeof d); }
 	template <typename F> Handle append(int e, F f) { return d.appendListener(1 + e, f); }
+	Handle appendFn(const std::function<void(int)> & f) { return d.appendListener(1, f); }
 	template <typename F> Handle prepend(F f) { return d.prependListener(1, f); }
 	template <typename F> Handle insert(F f, const Handle & h) { return d.insertListener(1, f, h); }
 	bool remove(const Handle & h) { return d.removeListener(1, h); }
@@ -143,6 +148,14 @@ struct Run {
 	int me() const { VThread * m = Sched::me(); return m ? m->id : 0; }
 
 	struct Cb { Run * r; int id; void operator()(int v) const { r->called(id, v); } };
+	// a callback whose copy constructor throws while its thread is armed (i.e. only for the copies the library makes)
+	bool armed[MAXT + 1] = {};
+	struct CbThrow {
+		Run * r; int id;
+		CbThrow(Run * r_, int i) : r(r_), id(i) {}
+		CbThrow(const CbThrow & o) : r(o.r), id(o.id) { if(r->armed[r->me()]) throw std::runtime_error("callback copy failed"); }
+		void operator()(int v) const { r->called(id, v); }
+	};
 	void called(int id, int v) {
 		std::vector<int> * vis = curVisit[me()];
 		if(!vis) { ctx.fail("call-outside-invocation", fmt("callback %d ran on thread %d while that thread was not invoking", id, me())); return; }
@@ -157,6 +170,14 @@ struct Run {
 		case APPEND_E2: handles[o.newId] = t->append(1, Cb{this, o.newId}); break;
 		case PREPEND: handles[o.newId] = t->prepend(Cb{this, o.newId}); break;
 		case INSERT_H1: handles[o.newId] = t->insert(Cb{this, o.newId}, handles[1]); break;
+		case APPEND_FAIL: {
+			std::function<void(int)> f = CbThrow(this, 30);
+			armed[thread] = true;
+			try { Handle h = t->appendFn(f); o.result = 5; /* it succeeded: the library made no copy?! */ (void)h; }
+			catch(const std::runtime_error &) { o.result = -2; }
+			armed[thread] = false;
+			break;
+		}
 		case REMOVE_H1: o.result = t->remove(handles[1]); break;
 		case REMOVE_H2: o.result = t->remove(handles[2]); break;
 		case OWNS_H1: o.result = t->owns(handles[1]); break;
@@ -357,7 +378,34 @@ static std::vector<Config> genWrap(int tier, bool disp) {
 	return v;
 }
 
-static std::vector<Config> gen(int tier, bool disp, bool wrap = false) {
+// configurations in which one thread's append FAILS (the copy of its callback throws inside the library) while other threads add,
+// remove and traverse: the failed call must have no effect whatever it overlaps with
+static std::vector<Config> genFault(int tier, bool disp) {
+	std::vector<Config> v;
+	std::vector<int> others = {APPEND, PREPEND, INSERT_H1, REMOVE_H1, REMOVE_H2, OWNS_H1, EMPTY, INVOKE, FOREACH};
+	if(disp) { others.push_back(APPEND_E2); others.push_back(DISPATCH_E2); }
+	for(int b : others) { Config c; c.threads = {{APPEND_FAIL}, {b}}; v.push_back(c); }
+	for(int b : {APPEND, PREPEND, INVOKE}) { Config c; c.nInitial = 0; c.threads = {{APPEND_FAIL}, {b}}; v.push_back(c); }
+	for(size_t i = 0; i < others.size(); ++i) for(size_t j = i; j < others.size(); ++j) {
+		int b = others[i], c3 = others[j];
+		if(!(mutates(b) || mutates(c3))) continue;
+		if(tier == 0 && !((isAdd(b) && (isTraversal(c3) || isAdd(c3))) || (isAdd(c3) && isTraversal(b)))) continue;
+		Config c; c.threads = {{APPEND_FAIL}, {b}, {c3}}; v.push_back(c);
+	}
+	for(int a2 : others) for(int b1 : others) for(int b2 : others) {
+		if(!(mutates(b1) || mutates(b2))) continue;
+		if(tier == 0 && ((a2 * 3 + b1 * 5 + b2) % 4 != 0)) continue;
+		{ Config c; c.threads = {{APPEND_FAIL, a2}, {b1, b2}}; v.push_back(c); }
+		if(tier >= 1) { Config c; c.threads = {{a2, APPEND_FAIL}, {b1, b2}}; v.push_back(c); }
+	}
+	// ... and with the counter wrapping on one of the successful additions
+	size_t n = v.size();
+	for(size_t i = 0; i < n; ++i) { bool hasAdd = false; for(auto & t : v[i].threads) for(int k : t) if(k == APPEND || k == PREPEND || k == INSERT_H1) hasAdd = true; if(hasAdd && (tier >= 1 || i % 3 == 0)) { Config c = v[i]; c.wrapAt = 1; v.push_back(c); } }
+	return v;
+}
+
+static std::vector<Config> gen(int tier, bool disp, int wrap = 0) {
+	if(wrap == 2) return genFault(tier, disp);
 	if(wrap) return genWrap(tier, disp);
 	std::vector<int> alpha;
 	for(int k = 0; k < (disp ? (int)NKINDS : (int)APPEND_E2); ++k) alpha.push_back(k);
@@ -403,7 +451,7 @@ static std::vector<Config> gen(int tier, bool disp, bool wrap = false) {
 static const int NSHARDS = 16;
 
 template <typename Target>
-static void addFamily(const std::string & fam, bool disp, int boundQuick, int boundThorough, int minTier, bool wrap = false) {
+static void addFamily(const std::string & fam, bool disp, int boundQuick, int boundThorough, int minTier, int wrap = 0) {
 	for(int shard = 0; shard < NSHARDS; ++shard) {
 		Unit u;
 		u.name = fmt("%s/shard%02d", fam.c_str(), shard);
@@ -457,7 +505,7 @@ static void addFamily(const std::string & fam, bool disp, int boundQuick, int bo
 }
 
 template <typename Target>
-static void addStatefulFamily(const std::string & fam, bool disp, int minTier, bool wrap = false) {
+static void addStatefulFamily(const std::string & fam, bool disp, int minTier, int wrap = 0) {
 	for(int shard = 0; shard < NSHARDS; ++shard) {
 		Unit u;
 		u.name = fmt("%s/shard%02d", fam.c_str(), shard);
@@ -467,7 +515,7 @@ static void addStatefulFamily(const std::string & fam, bool disp, int minTier, b
 			// the dispatcher's full thorough set is ~250 M states (measured); keep every third configuration of it - a fixed
 			// subset of configurations, each still explored in full (the quick tier's collision-rich subset is generated separately)
 			// wrap configurations: the 2-thread x 1-op ones in the quick tier, the quick generator's whole set in the thorough tier
-			if(wrap) { all = gen(0, disp, true); if(tier == 0) { std::vector<Config> small; for(auto & c : all) { size_t n = 0; for(auto & t : c.threads) n += t.size(); if(n <= 2) small.push_back(c); } all.swap(small); } }
+			if(wrap == 1) { all = gen(0, disp, 1); if(tier == 0) { std::vector<Config> small; for(auto & c : all) { size_t n = 0; for(auto & t : c.threads) n += t.size(); if(n <= 2) small.push_back(c); } all.swap(small); } }
 			if(tier >= 1 && disp && !wrap) { std::vector<Config> third; for(size_t i = 0; i < all.size(); i += 3) third.push_back(all[i]); all.swap(third); }
 			for(size_t i = 0; i < all.size(); ++i) if((int)(i % NSHARDS) == shard) mine.push_back(all[i]);
 			return mine;
@@ -557,6 +605,11 @@ static struct Register {
 		// the generation counter wraps during one of the concurrent additions (placed through private access, as C19 does)
 		addFamily<ListT<PolV> >("C03/wrap/list/vmutex", false, 2, 4, 0, true);
 		addStatefulFamily<ListT<PolV> >("C03/wrap/all-interleavings/list", false, 0, true);
+#endif
+#if (VERIF_SUB < 0 || VERIF_SUB == 9) && !defined(VERIF_NO_PRIVATE)
+		// one thread's append fails inside the library (throwing callback copy) while the others work on the same list
+		addFamily<ListT<PolV> >("C03/faulting-append/list/vmutex", false, 2, 3, 0, 2);
+		addFamily<DispT<PolVMap> >("C03/faulting-append/dispatcher/vmutex-map", true, 2, 3, 0, 2);
 #endif
 #if (VERIF_SUB < 0 || VERIF_SUB == 8) && !defined(VERIF_NO_PRIVATE)
 		addFamily<DispT<PolVMap> >("C03/wrap/dispatcher/vmutex-map", true, 2, 3, 0, true);
